@@ -182,13 +182,13 @@ def run(ctx, eng):
            'written only in _acknowledge_settings (found %s)'
            % sorted(w.split('.')[-1] for w in writers))
     fa = m.func(H + '_acknowledge_settings')
-    ok = False
+    ok = cm.Every()
     for p in cm.normal_paths(eng.I.run(fa)):
         for e in p.events:
             if e.kind == 'write' and e.attr == 'header_table_size':
                 v = e.value
-                ok = cm.attr_chain(e.base) == 'self.encoder' and \
-                    v[0] == 'a' and v[2] == 'new_value'
+                ok(cm.attr_chain(e.base) == 'self.encoder' and
+                   v[0] == 'a' and v[2] == 'new_value')
     ctx.ob('OWN.table-size', fa.qual, 'from the acknowledged remote change',
            ok, 'self.encoder.header_table_size = setting.new_value',
            node=fa.node)
